@@ -639,6 +639,7 @@ class Loader(object):
             ctx.probe("archive_order." + archive_order)
         world.bundle = ZW.make_archive({"Bundle/Zone": data})
         self.zif = None
+        self.ctx_fault_class = False
         self.stream_fault = None
         ref = tzif.Ref(data)
         sib_types = [(off + (0 if isdst else 3600), isdst, abbr)
@@ -748,7 +749,24 @@ class Loader(object):
             raw = _Raw(self.data, 7)
             return tz.tzfile(io.BufferedReader(raw, buffer_size=16))
         if k == "archive":
-            return self.zoneinfofile().get("Area/Zone")
+            z = self.zoneinfofile().get("Area/Zone")
+            if z is not None and not self.ctx_fault_class:
+                # ANOTHER archive holding other data under the same member
+                # name: the two zones are not the same zone
+                other = self.zi.ZoneInfoFile(io.BytesIO(ZW.make_archive(
+                    {"Area/Zone": self.sibling}))).get("Area/Zone")
+                self.ctx.probe("archive_namesake_in_another_archive")
+                self.ctx.checks += 1
+                same = tz.tzfile(io.BytesIO(self.data)) == \
+                    tz.tzfile(io.BytesIO(self.sibling))
+                if other is not None and not same and \
+                        (z == other or other == z):
+                    self.ctx.violation(
+                        "C06.equal_to_other_data",
+                        dict(zone=self.name, note="zones of two archives "
+                             "with the same member name and different data "
+                             "compare equal"))
+            return z
         if k == "archive_link":
             return self.zoneinfofile().get("Area/Link")
         if k == "archive_hardlink":
@@ -825,6 +843,7 @@ def execute(cls, scenario, ctx):
     instants = probe_instants(ref, scenario["probe_seed"],
                               scenario.get("all_transitions"))
     fault_class = cls == "faults"
+    L.ctx_fault_class = fault_class
     if cls == "system":
         ctx.count("system_files_total", 0)
     armed = []
